@@ -427,7 +427,15 @@ def conv_round(chk, drv, items, mechanism):
 def in_spec(s):
     """the shared reference semantics covers this schema (no tuple-form `items`)"""
     bad = []
-    G.walk_dicts(s, lambda d: bad.append(1) if isinstance(d.get("items"), list) else None)
+
+    def fn(d):
+        if isinstance(d.get("items"), list):
+            bad.append(1)
+        # OpenAPI flags must be booleans: Python truthiness ("yes", 1) and the specification's reading differ on anything else
+        if any(k in d and not isinstance(d[k], bool) for k in ("readOnly", "writeOnly", "x-writeOnly")):
+            bad.append(1)
+
+    G.walk_dicts(s, fn)
     return not bad
 
 
@@ -826,7 +834,8 @@ def draws_round(chk, drv, docs, n_draws, mechanism="draws"):
             chk.feature(f"{mechanism}:no-cases:{name}")
             if name in ("Unsatisfiable", "FailedHealthCheck", "Flaky", "SkipTest", "InvalidArgument"):
                 continue  # the generator gave up / contradictory schema: counted, not judged (third-party search limits)
-            schemas = [param_schema(doc, d) for _, d in doc["params"]] + ([doc["body"]] if doc["body"] is not None else [])
+            schemas = [param_schema(doc, d) for _, d in doc["params"]] + \
+                      ([inline_refs(doc["body"], raw)] if doc["body"] is not None else [])
             sig = None
             if name == "TypeError" and any(crash_shape(s) for s in schemas):
                 sig = KF_F33
@@ -1040,12 +1049,12 @@ def run(chk):
            (W_F32, "nullable", False, True, [W_F32_INSTANCE, "a"]),
            (W_F33, "nullable", False, True, [{}])]
     conv_round(chk, drv, wit, "witness")
-    conv_round(chk, drv, gen_conv_items(chk, chk.budget(1000, 10000)), "conv")
+    conv_round(chk, drv, gen_conv_items(chk, chk.budget(1000, 20000)), "conv")
     conv_round(chk, drv, gen_conv_items(chk, chk.budget(150, 1500), spice=0.5), "conv-spiced")
     docs = [G.gen_document(chk.rng, chk.rng.choice(["3.0", "3.0", "2.0", "3.1"])) for _ in range(chk.budget(150, 1500))]
     location_round(chk, drv, docs, "location")
     ddocs = [G.gen_document(chk.rng, chk.rng.choice(["3.0", "3.0", "2.0"]), body_depth=chk.rng.choice([1, 2]))
-             for _ in range(chk.budget(22, 200))]
+             for _ in range(chk.budget(22, 400))]
     draws_round(chk, drv, DRAW_WITNESSES + ddocs, chk.budget(10, 25))
     regex_round(chk, drv, REGEX_WITNESSES, "regex-witness")
     ex = exhaustive_regex_cases(chk)
